@@ -106,6 +106,17 @@ CHECKS = {
             "quick": {"shards": 8, "cases": 2500}, "thorough": {"shards": 16, "cases": 60000}},
     "C20": {"engine": "e_reject",
             "quick": {"shards": 8, "cases": 2500}, "thorough": {"shards": 16, "cases": 60000}},
+    "C17": {"variant": "asan", "mode": "mem", "replay_all_regressions": True,
+            "multi": [{"engine": "e_static", "prop": "C02"}, {"engine": "e_variants", "prop": "C08"}, {"engine": "e_variants", "prop": "C09"},
+                      {"engine": "e_variants", "prop": "C10"}, {"engine": "e_mapped", "prop": "C11"}, {"engine": "e_mapped", "prop": "C12"},
+                      {"engine": "e_multidim", "prop": "C13"}, {"engine": "e_multidim", "prop": "C14"}, {"engine": "e_dynamic", "prop": "C06"},
+                      {"engine": "e_dynamic", "prop": "C05"}, {"engine": "e_cif", "prop": "C18"}],
+            "rule": ("the generators of C02, C05, C06, C08-C14 and C18 in --mode mem (semantic mismatches ignored, AddressSanitizer is the oracle; build -O1 -g "
+                     "-fsanitize=address, detect_stack_use_after_return=1, leak detection off), every other case with a size hint <= 12 (n = 1, 2, 3 ...), "
+                     "queries at lowest(), first-1, last+1, max-1, empty dynamic containers, iterators driven to end(), boxes reaching the last stored point; "
+                     "plus every file of replays/regress/*. non-trivial: n <= 3 or data touching lowest()/max-1 or a chunked build or a query outside "
+                     "[front,back] (static families), a merge beyond the buffer (dynamic), every multidimensional case; distinct by canonical tape hash"),
+            "quick": {"shards": 1, "cases": 700, "crash_shrink_budget": 300}, "thorough": {"shards": 2, "cases": 40000, "crash_shrink_budget": 600}},
     "C07": {"engine": "e_static",
             "quick": {"shards": 8, "cases": 4000}, "thorough": {"shards": 16, "cases": 120000}},
 }
@@ -193,6 +204,10 @@ DESCR = {
                      "exception (NULL from C) at every generated position, and a rejected insert must leave the container unchanged (accessor snapshot + traversal)",
             "design_ref": "DESIGN.md section 6 C20", "note": "trusted: exception classification by catch order; base 0 and 1 are outside the stated property (the member initialisers divide by ceil_log2(base) before the check)",
             "technique": "property-based testing with fault injection into valid inputs; exception-type / unchanged-state oracle"},
+    "C17": {"level": "generated-input search under AddressSanitizer: the case generators of eleven semantic checks, biased to boundary sizes and keys, plus all regression "
+                     "replays, run against ASan builds of every index class; any ASan report (or crash) on an in-domain case is a violation, minimised in forked children",
+            "design_ref": "DESIGN.md section 6 C17", "note": "trusted: AddressSanitizer (g++ 12) as the memory oracle; reads inside live allocations of the wrong object are invisible to it; vendored sdsl code is in scope only as far as the index classes call it",
+            "technique": "fuzz-style property-based testing with AddressSanitizer as oracle"},
     "C07": {"level": "generated-input search with the routing hook: per level the chosen segment must be the responsible one, within EpsRec+1 of the prediction, "
                      "found inside the 2*EpsRec+3 window; level sizes obey floor(m/(2*EpsRec+1))+c",
             "design_ref": "DESIGN.md section 6 C07", "note": _STATIC_NOTE + "; relies on the PGM_INDEX_VERIF route_event hook",
